@@ -83,6 +83,19 @@ func canonRow(vals map[string]any) string {
 	return b.String()
 }
 
+// whereMentions reports whether the predicate text references the column as a whole word.
+func whereMentions(where, col string) bool {
+	isWord := func(b byte) bool {
+		return b == '_' || b >= '0' && b <= '9' || b >= 'a' && b <= 'z' || b >= 'A' && b <= 'Z'
+	}
+	for i := 0; i+len(col) <= len(where); i++ {
+		if where[i:i+len(col)] == col && (i == 0 || !isWord(where[i-1])) && (i+len(col) == len(where) || !isWord(where[i+len(col)])) {
+			return true
+		}
+	}
+	return false
+}
+
 // readMeasurement reads every Parquet file of root/db/m: rid -> row, plus per-file rid lists.
 func readMeasurement(root, db, m string) (rows map[int64]storedRow, perFile map[string][]int64, dup []int64, err error) {
 	rows = map[int64]storedRow{}
@@ -427,7 +440,21 @@ func (w *c10Worker) run(cs c10Case, mname string) (res c10Result) {
 	if !partial {
 		// complete delete claimed: no selected row may remain
 		if len(keptT) > 0 {
-			add("rows for which the predicate is true remain after a delete that reported success", mk(map[string]any{"counts": counts, "example": rowExample(before[keptT[0]]), "rids": keptT}))
+			// classify by where the surviving selected rows live: all of them in files whose
+			// schema lacks a column the predicate tests (schema evolution) is its own class
+			sig := "rows for which the predicate is true remain after a delete that reported success"
+			if cs.Evolve != "" && whereMentions(cs.Where, cs.Evolve) {
+				onlyEvolved := true
+				for _, rid := range keptT {
+					if _, has := before[rid].vals[cs.Evolve]; has {
+						onlyEvolved = false
+					}
+				}
+				if onlyEvolved {
+					sig += " [every such row is in a file that lacks a column the predicate tests]"
+				}
+			}
+			add(sig, mk(map[string]any{"counts": counts, "example": rowExample(before[keptT[0]]), "rids": keptT}))
 		}
 		// counts. Statement: reported count == rows that disappeared; dry run reports the same count.
 		nullExplained := len(lostN) > 0 && len(lostF) == 0 && len(keptT) == 0
